@@ -198,7 +198,12 @@ int main(int argc, char **argv)
         w.s.pop_back(); // drop closing brace
         w.first = false;
         if(hasR) w.kv("r", r);
-        if(e == "Gen") { w.kv("gf", genFrames); w.kv("us", tlcint(genFrames * 1000000LL / rate)); }
+        if(e == "Gen")
+        {
+            w.kv("gf", genFrames); w.kv("us", tlcint(genFrames * 1000000LL / rate));
+            if(tap->pf.size() <= 64) { w.key("pf"); w.begin_arr(); for(size_t q = 0; q < tap->pf.size(); ++q) w.num(tap->pf[q]); w.end_arr(); }
+        }
+        if(e == "Init") { w.kv("xlim", (long long)playerOf(dev)->m_synth->m_verifChanLimit); }
         if(e == "Init" || e == "OpenBank") { w.key("bl"); emitBanks(w, curLayout); }
         if(e == "SetIns") { JV ij = c["ins"]; ij.o.push_back(std::make_pair(std::string("i"), c["i"])); w.key("insrec"); emitInsRec(w, ij); }
         w.kv("wn", tap->raw);
